@@ -270,7 +270,7 @@ struct Driver {
         bool vbu = m.has_vertex_bottom_up_incidences(), ebu = m.has_edge_bottom_up_incidences(), fbu = m.has_face_bottom_up_incidences();
         if (!(vbu && ebu && fbu)) return;
         std::vector<int> lv = live(0);
-        if (lv.size() > 9) { rng.shuffle(lv); lv.resize(9); std::sort(lv.begin(), lv.end()); }
+        if (lv.size() > 7) { rng.shuffle(lv); lv.resize(7); std::sort(lv.begin(), lv.end()); }
         for (int a : lv) for (int b : lv) fprintf(OUT, "lfhe %d %d %d\n", a, b, m.find_halfedge(VertexHandle(a), VertexHandle(b)).idx());
         for (int a : lv) for (int b : lv) for (int c : lv) {
             if (a == b || b == c) continue;
@@ -304,7 +304,7 @@ struct Driver {
         }
         // find_halfface(halfedges): all ordered pairs of live halfedges (capped)
         std::vector<int> lhe; for (int h = 0; h < 2 * nE(); ++h) if (liveHE(h)) lhe.push_back(h);
-        if (lhe.size() > 24) { rng.shuffle(lhe); lhe.resize(24); std::sort(lhe.begin(), lhe.end()); }
+        if (lhe.size() > 14) { rng.shuffle(lhe); lhe.resize(14); std::sort(lhe.begin(), lhe.end()); }
         for (int a : lhe) for (int b : lhe) {
             std::vector<HalfEdgeHandle> hs{HalfEdgeHandle(a), HalfEdgeHandle(b)};
             fprintf(OUT, "lfhfh %d %d %d\n", a, b, m.find_halfface(hs).idx());
@@ -364,9 +364,15 @@ struct Driver {
         default: mk_prop_kind<Vec3d>(k, dst, kindIdx, key, dflt, flavour); break;
         }
     }
+    void make_id_columns() {
+        static const int kinds[4] = {0, 1, 3, 5};
+        static const char* keys[4] = {"idv", "ide", "idf", "idc"};
+        for (int i = 0; i < 4; ++i) { mk_prop(m, props, kinds[i], 0, keys[i], 0, 1); if (twin) mk_prop(*twin, twin_props, kinds[i], 0, keys[i], 0, 1); }
+    }
     // give every slot that still holds the default a fresh token (bool columns: parity)
-    void retoken(std::vector<std::unique_ptr<PropBase>>& pr) {
-        for (auto& p : pr) for (size_t i = 0; i < p->size(); ++i) if (p->get(i) == p->dflt) { p->set(i, next_tok); next_tok += 1; }
+    void retoken(std::vector<std::unique_ptr<PropBase>>& pr, bool idOnly) {
+        size_t k = 0;
+        for (auto& p : pr) { if (!(idOnly && k >= 4)) for (size_t i = 0; i < p->size(); ++i) if (p->get(i) == p->dflt) { p->set(i, next_tok); next_tok += 1; } ++k; }
     }
 
     // ---------------- operation execution (generation and replay both go through exec)
@@ -380,7 +386,7 @@ struct Driver {
         fprintf(OUT, "R %s\n", res.c_str());
         dump();
         if ((int)rng.below(100) < query_pct) dump_queries();
-        if (profile == "c10" || profile == "c09") dump_lookups();
+        if ((profile == "c10" || profile == "c09") && rng.chance(1, 4)) dump_lookups();
         fputs("E\n", OUT);
         fflush(OUT);
     }
@@ -451,7 +457,7 @@ struct Driver {
         if (n == "enable_bu") return a.size() == 2 && a[0] >= 0 && a[0] <= 2;
         if (n == "clear") return a.size() == 1;
         if (n == "prop_new") return a.size() == 4 && a[0] >= 0 && a[0] <= 6 && a[1] >= 0 && a[1] <= 4;
-        if (n == "prop_drop") return a.size() == 1 && a[0] >= 0 && (size_t)a[0] < props.size();
+        if (n == "prop_drop") return a.size() == 1 && a[0] >= 4 && (size_t)a[0] < props.size();   // 0..3 are the id columns
         return false;
     }
 
@@ -498,7 +504,7 @@ struct Driver {
         }
         if (n == "clear") {
             k.clear(a[0] != 0);
-            if (a[0] != 0) pr.clear();   // storages are detached by clear_all_props: drop our handles
+            // clear_all_props only makes the storages private: our handles stay attached
             return "ok";
         }
         if (n == "prop_new") {
@@ -506,8 +512,8 @@ struct Driver {
             mk_prop(k, pr, (int)a[0], (int)a[1], key, a[2], (int)a[3]);
             return key;
         }
-        if (n == "prop_drop") { pr.erase(pr.begin() + a[0]); return "ok"; }
-        if (n == "retoken") { retoken(pr); return "ok"; }
+        if (n == "prop_drop") { std::string key = pr[a[0]]->key; pr.erase(pr.begin() + a[0]); return key; }
+        if (n == "retoken") { retoken(pr, !a.empty() && a[0] == 1); return "ok"; }
         return "?";
     }
 
@@ -520,6 +526,12 @@ struct Driver {
         if (twin) { long t1 = next_tok; next_tok = tok0; std::string r2 = apply(*twin, twin_props, op, true); next_tok = std::max(t1, next_tok); (void)r2; }
         if (op.name == "prop_new") prop_counter++;
         finish_step(r);
+        // entity identity tokens: every new slot of an id column gets a fresh token right away
+        if (op.name != "retoken") {
+            bool need = false;
+            for (size_t i = 0; i < 4 && i < props.size(); ++i) for (size_t j = 0; j < props[i]->size(); ++j) if (props[i]->get(j) == 0) need = true;
+            if (need) exec(Op{"retoken", {1}});
+        }
         return true;
     }
 
@@ -722,7 +734,7 @@ struct Driver {
         if (props.size() < 12 && rng.chance(2, 3)) {
             long kindIdx = (long)rng.below(7), typeIdx = (long)rng.below(5), fl = (long)rng.below(3);
             long dflt = typeIdx == 1 ? (long)rng.below(2) : (long)rng.below(5);
-            if (exec(mk("prop_new", {kindIdx, typeIdx, dflt, fl}))) exec(mk("retoken", {}));
+            if (exec(mk("prop_new", {kindIdx, typeIdx, dflt, fl}))) exec(mk("retoken", {0}));
         } else if (!props.empty()) {
             exec(mk("prop_drop", {(long)rng.below(props.size())}));
         }
@@ -750,7 +762,7 @@ struct Driver {
             else if (w < 98) gen_malformed();
             else exec(mk("clear", {(long)rng.below(2)}));
         }
-        if (rng.chance(1, 3)) exec(mk("retoken", {}));
+        if (rng.chance(1, 3)) exec(mk("retoken", {0}));
     }
 };
 
@@ -783,9 +795,9 @@ template <class Mesh> static void run_trace(const std::string& kind, const std::
         while (getline(&line, &cap, f) > 0) {
             std::istringstream is(line);
             std::string tag; is >> tag;
-            if (tag == "I") { uint64_t cfg; is >> cfg; init_mesh(d, cfg); fprintf(OUT, "I %llu\n", (unsigned long long)cfg); d.dump(); fputs("E\n", OUT); first = false; continue; }
+            if (tag == "I") { uint64_t cfg; is >> cfg; init_mesh(d, cfg); d.make_id_columns(); fprintf(OUT, "I %llu\n", (unsigned long long)cfg); d.dump(); fputs("E\n", OUT); first = false; continue; }
             if (tag != "O" && tag != "O!") continue;
-            if (first) { init_mesh(d, 0); first = false; }
+            if (first) { init_mesh(d, 0); d.make_id_columns(); first = false; }
             Op op; is >> op.name; long x; while (is >> x) op.a.push_back(x);
             d.exec(op);
         }
@@ -796,6 +808,7 @@ template <class Mesh> static void run_trace(const std::string& kind, const std::
     cfg = (uint64_t)trace % 32;
     if (profile == "core" && trace % 5 == 0) cfg = 3 | 4 | 8 | 16;   // shipping combination while loading: deferred+fast, incidences off
     init_mesh(d, cfg);
+    d.make_id_columns();
     fprintf(OUT, "I %llu\n", (unsigned long long)cfg);
     d.dump();
     fputs("E\n", OUT);
